@@ -725,7 +725,8 @@ def run(rep):
             for seq in _all_seqs(A, L):
                 if over(0.95):
                     break
-                regs = [(0, L)] + (rng.sample(allregs[:-1] if allregs[-1] == (0, L) else [r for r in allregs if r != (0, L)], min(2, len(allregs) - 1)) if thorough and len(allregs) > 1 else [])
+                others = [r for r in allregs if r != (0, L)]
+                regs = [(0, L)] + (rng.sample(others, min(2, len(others))) if thorough else [])
                 for (s, e) in regs:
                     for n in (2, 3):
                         seed = base_seed + 7 * n + s
